@@ -223,6 +223,17 @@ package rux
 //@   ensures old(rwOf(w).length) == -1 ==> hdrStatus(rwOf(w).Writer) == (code > 0 ? code : (old(rwOf(w).status) == 0 ? 200 : old(rwOf(w).status)))
 //@   ensures old(rwOf(w).length) >= 0 ==> hdrStatus(rwOf(w).Writer) == old(hdrStatus(rwOf(w).Writer))
 //@   ensures rwOf(w).status == (code > 0 ? code : (old(rwOf(w).length) == -1 && old(rwOf(w).status) == 0 ? 200 : old(rwOf(w).status)))
+// http.Redirect: sets Location, commits the header with the given code (when not yet committed), may write a
+// short body.
+//@ extern net/http.Redirect(w, r, url, code)
+//@   requires hastype(w, *responseWriter) && wInv(rwOf(w))
+//@   modifies rwOf(w).status, rwOf(w).length, hdrCalls(rwOf(w).Writer), hdrStatus(rwOf(w).Writer), body(rwOf(w).Writer), early(rwOf(w).Writer)
+//@   modifies cast(uf("headersOf", ref, refof(rwOf(w).Writer)), http.Header)["Location"], headerVal(cast(uf("headersOf", ref, refof(rwOf(w).Writer)), http.Header), "Location")
+//@   modifies cast(uf("headersOf", ref, refof(rwOf(w).Writer)), http.Header)["Content-Type"], headerVal(cast(uf("headersOf", ref, refof(rwOf(w).Writer)), http.Header), "Content-Type")
+//@   ensures wInv(rwOf(w)) && rwOf(w).length >= max(old(rwOf(w).length), 0)
+//@   ensures old(rwOf(w).length) == -1 ==> hdrStatus(rwOf(w).Writer) == (code > 0 ? code : (old(rwOf(w).status) == 0 ? 200 : old(rwOf(w).status)))
+//@   ensures old(rwOf(w).length) >= 0 ==> hdrStatus(rwOf(w).Writer) == old(hdrStatus(rwOf(w).Writer))
+//@   ensures headerVal(cast(uf("headersOf", ref, refof(rwOf(w).Writer)), http.Header), "Location") == uf("redirect.location", string, url, r)
 //
 //@ func (*Context).AbortWithStatus [C05, C08]
 //@   requires respBound(c) && wInv(&c.writer)
@@ -574,6 +585,9 @@ package rux
 //@ ghost lastAlm(ref) int
 //@ ghost lastPath(ref) string
 //@ ghost lastLookup(ref) string
+// lastMM(r) / lastMR(r): method and result of the most recent (*Router).match on r.
+//@ ghost lastMM(ref) string
+//@ ghost lastMR(ref) ref
 //@ ghost lastMethod(ref) string
 //@ ghost hookCalls(ref) int
 //
@@ -648,7 +662,7 @@ package rux
 //@   uses methods_no_slash
 //@   requires tablesWF(r) && cacheNN(r) && methodsTable()
 //@   modifies held(r.cachedRoutes.lock), entries(r.cachedRoutes.hashMap), lmem(r.cachedRoutes.list, _), rank(_), lclock(r.cachedRoutes.list), ln(r.cachedRoutes.list), lback(r.cachedRoutes.list), cacheNode.Value
-//@   modifies isReg(_), lastLookup(r), lastRoute(r), lastAlm(r), lastPath(r), lastMethod(r)
+//@   modifies isReg(_), lastLookup(r), lastMM(r), lastMR(r), lastRoute(r), lastAlm(r), lastPath(r), lastMethod(r)
 //@   ghostset lastRoute(r) = route
 //@   ghostset lastAlm(r) = len(alm)
 //@   ghostset lastPath(r) = path
@@ -659,8 +673,8 @@ package rux
 //@   ensures[C04, C05] chains_fit: old(chainsFit(r)) ==> chainsFit(r) && (route != nil ==> fits(r, route))
 //@   ensures no_params_without_route: route == nil ==> ps == nil
 //@   ensures[C11, C06] one_normaliser: lastLookup(r) == lookupPath(r, path)
-//@   ensures[C06] direct_match_first: validMethod(method) && tm(r, method, lookupPath(r, path)) ==> route != nil
-//@   ensures[C06] head_falls_back_to_get: method == "HEAD" && !tm(r, method, lookupPath(r, path)) && tm(r, "GET", lookupPath(r, path)) ==> route != nil
+//@   ensures[C06] direct_match_first: validMethod(method) && tm(r, method, lookupPath(r, path)) ==> route != nil && route == lastMR(r) && lastMM(r) == method
+//@   ensures[C06] head_falls_back_to_get: method == "HEAD" && !tm(r, method, lookupPath(r, path)) && tm(r, "GET", lookupPath(r, path)) ==> route != nil && route == lastMR(r) && lastMM(r) == "GET"
 //@   ensures[C06] then_fallback_route: validMethod(method) && !tm(r, method, lookupPath(r, path)) && !(method == "HEAD" && tm(r, "GET", lookupPath(r, path)))
 //@       && r.handleFallbackRoute && (method + "/*") in r.stableRoutes ==> route == r.stableRoutes[method + "/*"] && ps == nil && len(alm) == 0
 //@   ensures[C06] then_method_not_allowed: validMethod(method) && !tm(r, method, lookupPath(r, path)) && !(method == "HEAD" && tm(r, "GET", lookupPath(r, path)))
@@ -669,10 +683,17 @@ package rux
 //@   ensures[C06] else_not_found: validMethod(method) && !tm(r, method, lookupPath(r, path)) && !(method == "HEAD" && tm(r, "GET", lookupPath(r, path)))
 //@       && !(r.handleFallbackRoute && (method + "/*") in r.stableRoutes) && !r.handleMethodNotAllowed ==> route == nil && len(alm) == 0
 //
+// InterceptAll(p): the router's intercept path is p (trimmed); together with one_normaliser every lookup is
+// then the lookup of p.
+//@ func InterceptAll$1 [C06, C11]
+//@   requires r != nil
+//@   modifies r.interceptAll
+//@   ensures intercept_is_p: r.interceptAll == uf("trimspace", string, path)
+//
 //@ func (*Router).Match [C06, C13]
 //@   requires tablesWF(r) && cacheNN(r) && methodsTable()
 //@   modifies held(r.cachedRoutes.lock), entries(r.cachedRoutes.hashMap), lmem(r.cachedRoutes.list, _), rank(_), lclock(r.cachedRoutes.list), ln(r.cachedRoutes.list), lback(r.cachedRoutes.list), cacheNode.Value
-//@   modifies isReg(_), lastLookup(r), lastRoute(r), lastAlm(r), lastPath(r), lastMethod(r)
+//@   modifies isReg(_), lastLookup(r), lastMM(r), lastMR(r), lastRoute(r), lastAlm(r), lastPath(r), lastMethod(r)
 //@   ensures wf: tablesWF(r) && methodsTable()
 //
 //@ spec reqOK(c *Context) bool = c.Req != nil && c.Req.URL != nil
@@ -683,7 +704,7 @@ package rux
 //@   requires ctx != nil && pristine(ctx) && wInv(&ctx.writer) && reqOK(ctx) && started(ctx) == 0 && !aborted(ctx) && hookCalls(ctx) == 0 && owned(ctx)
 //@   requires within_limit: fallbackChains(r)
 //@   requires router_ready: routerInv(r) && validMethod(ctx.Req.Method)
-//@   modifies isReg(_), lastLookup(r), cacheNode.Value
+//@   modifies isReg(_), lastLookup(r), lastMM(r), lastMR(r), cacheNode.Value
 //@   modifies ctx.index, ctx.data, entries(ctx.data), ctx.Errors, ctx.Req, ctx.Resp, ctx.Params, ctx.handlers, started(ctx), aborted(ctx)
 //@   modifies ctx.writer.status, ctx.writer.length, hdrCalls(ctx.writer.Writer), hdrStatus(ctx.writer.Writer), body(ctx.writer.Writer), early(ctx.writer.Writer)
 //@   modifies held(r.cachedRoutes.lock), entries(r.cachedRoutes.hashMap), lmem(r.cachedRoutes.list, _), rank(_), lclock(r.cachedRoutes.list), ln(r.cachedRoutes.list), lback(r.cachedRoutes.list)
@@ -707,7 +728,7 @@ package rux
 
 //@ func (*Router).ServeHTTP [C03, C08, C09, C10]
 //@   requires freshWriter(res) && req != nil && req.URL != nil && fallbackChains(r) && routerInv(r) && validMethod(req.Method)
-//@   modifies isReg(_), lastLookup(r), cacheNode.Value
+//@   modifies isReg(_), lastLookup(r), lastMM(r), lastMR(r), cacheNode.Value
 //@   modifies allfields(Context), allelems([]error), allelems([]HandlerFunc), started(_), aborted(_), hookCalls(_), owned(_), lastRoute(r), lastAlm(r), lastPath(r), lastMethod(r)
 //@   modifies hdrCalls(res), hdrStatus(res), body(res), early(res), allentries(M)
 //@   modifies held(r.cachedRoutes.lock), entries(r.cachedRoutes.hashMap), lmem(r.cachedRoutes.list, _), rank(_), lclock(r.cachedRoutes.list), ln(r.cachedRoutes.list), lback(r.cachedRoutes.list)
@@ -826,7 +847,7 @@ package rux
 //@   modifies isReg(_)
 //@   ensures ready: cacheReady(r)
 //@   ensures[C14] stored_under_key: r.enableCaching && r.cachedRoutes.size >= 1 ==> key in r.cachedRoutes.hashMap
-//@   ensures[C14, C07] stored_copy: r.enableCaching && key in r.cachedRoutes.hashMap ==> copyOf(view(r.cachedRoutes, key), route) && view(r.cachedRoutes, key).params == ps && fresh(view(r.cachedRoutes, key))
+//@   ensures[C14, C07, C02] stored_copy: r.enableCaching && key in r.cachedRoutes.hashMap ==> copyOf(view(r.cachedRoutes, key), route) && view(r.cachedRoutes, key).params == ps && fresh(view(r.cachedRoutes, key))
 //@   ensures disabled_no_effect: !r.enableCaching ==> (forall k string :: (k in r.cachedRoutes.hashMap) == old(k in r.cachedRoutes.hashMap) && view(r.cachedRoutes, k) == old(view(r.cachedRoutes, k)))
 //@   ensures regs: forall x ref :: allocated(x) ==> isReg(x) == old(isReg(x))
 //@   ensures domain_grows_by_key_only: forall k string :: k in r.cachedRoutes.hashMap ==> k == key || old(k in r.cachedRoutes.hashMap)
@@ -853,9 +874,11 @@ package rux
 //@   uses key_cancel
 //@   requires len(path) >= 1 && tablesWF(r)
 //@   requires[C06, C07] cache_consistent: okMP(method, path) ==> cacheNN(r)
-//@   modifies lastLookup(r)
+//@   modifies lastLookup(r), lastMM(r), lastMR(r)
 //@   ghostset lastLookup(r) = path
-//@   ensures lookup_recorded: lastLookup(r) == path
+//@   ghostset lastMM(r) = method
+//@   ghostset lastMR(r) = rt
+//@   ensures lookup_recorded: lastLookup(r) == path && lastMM(r) == method && lastMR(r) == rt
 //@   ensures result_is_dispatchable: rt != nil ==> routeOK(rt)
 //@   ensures[C04, C05] chains_fit: old(chainsFit(r)) ==> chainsFit(r) && (rt != nil ==> fits(r, rt))
 //@   ensures no_params_without_route: rt == nil ==> ps == nil
@@ -866,7 +889,7 @@ package rux
 //@   modifies isReg(_)
 //@   ensures wf: tablesWF(r)
 //@   ensures[C01, C02] static_first: (method + path) in r.stableRoutes ==> rt == r.stableRoutes[method + path] && ps == nil
-//@   ensures[C07] cache_hit: !((method + path) in r.stableRoutes) && old(cacheHit(r, method + path)) ==> rt == old(view(r.cachedRoutes, method + path)) && ps == rt.params
+//@   ensures[C07, C02] cache_hit: !((method + path) in r.stableRoutes) && old(cacheHit(r, method + path)) ==> rt == old(view(r.cachedRoutes, method + path)) && ps == rt.params
 //@   ensures[C01] regular_first_match: !((method + path) in r.stableRoutes) && !old(cacheHit(r, method + path)) && regHit(r, method, path)
 //@       ==> (exists i int :: firstR(r.regularRoutes[rkey(method, path)], path, i) && rt == r.regularRoutes[rkey(method, path)][i]) && psOK(ps, rt, path)
 //@   ensures[C01] irregular_first_match: !((method + path) in r.stableRoutes) && !old(cacheHit(r, method + path)) && !regHit(r, method, path) && irrHit(r, method, path)
@@ -902,7 +925,7 @@ package rux
 //@   uses methods_no_slash
 //@   requires len(path) >= 1 && tablesWF(r) && cacheNN(r) && methodsTable()
 //@   modifies held(r.cachedRoutes.lock), entries(r.cachedRoutes.hashMap), lmem(r.cachedRoutes.list, _), rank(_), lclock(r.cachedRoutes.list), ln(r.cachedRoutes.list), lback(r.cachedRoutes.list), cacheNode.Value
-//@   modifies isReg(_), lastLookup(r)
+//@   modifies isReg(_), lastLookup(r), lastMM(r), lastMR(r)
 //@   ensures wf: tablesWF(r) && (prefixof("/", path) ==> cacheNN(r))
 //@   ensures lookups_use_path: lastLookup(r) == path || lastLookup(r) == old(lastLookup(r))
 //@   ensures[C04, C05] chains_fit: old(chainsFit(r)) ==> chainsFit(r)
@@ -1147,6 +1170,14 @@ package rux
 //@   modifies c.writer.status, c.writer.length, hdrCalls(c.writer.Writer), hdrStatus(c.writer.Writer), body(c.writer.Writer), early(c.writer.Writer)
 //@   ensures inv: wInv(&c.writer) && c.writer.length >= 0
 //@   ensures status_given: status > 0 && old(c.writer.length) == -1 ==> hdrStatus(c.writer.Writer) == status
+//@ func (*Context).Redirect [C19, C08]
+//@   requires respBound(c) && wInv(&c.writer)
+//@   modifies c.writer.status, c.writer.length, hdrCalls(c.writer.Writer), hdrStatus(c.writer.Writer), body(c.writer.Writer), early(c.writer.Writer)
+//@   modifies hdrs(c)["Location"], headerVal(hdrs(c), "Location"), hdrs(c)["Content-Type"], headerVal(hdrs(c), "Content-Type")
+//@   ensures inv: wInv(&c.writer) && c.writer.length >= 0
+//@   ensures status_given: len(optionalCode) > 0 && optionalCode[0] > 0 && old(c.writer.length) == -1 ==> hdrStatus(c.writer.Writer) == optionalCode[0]
+//@   ensures default_301: len(optionalCode) == 0 && old(c.writer.length) == -1 ==> hdrStatus(c.writer.Writer) == 301
+//@   ensures location_is_target: headerVal(hdrs(c), "Location") == uf("redirect.location", string, path, c.Req)
 
 //@ func (*Context).Text [C19]
 //@   requires respBound(c) && wInv(&c.writer)
@@ -1180,17 +1211,60 @@ package rux
 //@   ensures inv: wInv(&c.writer)
 //@   ensures status_given: status > 0 && old(c.writer.length) == -1 ==> (c.writer.length >= 0 ? hdrStatus(c.writer.Writer) == status : c.writer.status == status)
 //@   ensures failure_is_recorded: renderFailed(c.writer.Writer) ==> len(c.Errors) == old(len(c.Errors)) + 1
+//@ func (*Context).XML [C19]
+//@   requires respBound(c) && wInv(&c.writer)
+//@   modifies c.writer.status, c.writer.length, hdrCalls(c.writer.Writer), hdrStatus(c.writer.Writer), c.Errors, allelems([]error)
+//@   modifies allentries(http.Header), headerVal(_, _), body(_), early(_), renderFailed(_), renderedKind(_), encW(_)
+//@   ensures inv: wInv(&c.writer)
+//@   ensures status_given: status > 0 && old(c.writer.length) == -1 ==> (c.writer.length >= 0 ? hdrStatus(c.writer.Writer) == status : c.writer.status == status)
+//@   ensures failure_is_recorded: renderFailed(c.writer.Writer) ==> len(c.Errors) == old(len(c.Errors)) + 1
+//@ func (*Context).JSONP [C19]
+//@   requires respBound(c) && wInv(&c.writer)
+//@   modifies c.writer.status, c.writer.length, hdrCalls(c.writer.Writer), hdrStatus(c.writer.Writer), c.Errors, allelems([]error)
+//@   modifies allentries(http.Header), headerVal(_, _), body(_), early(_), renderFailed(_), renderedKind(_), encW(_)
+//@   ensures inv: wInv(&c.writer)
+//@   ensures status_given: status > 0 && old(c.writer.length) == -1 ==> (c.writer.length >= 0 ? hdrStatus(c.writer.Writer) == status : c.writer.status == status)
+//@   ensures failure_is_recorded: renderFailed(c.writer.Writer) ==> len(c.Errors) == old(len(c.Errors)) + 1
+//@ func (*Context).HTMLString [C19]
+//@   requires respBound(c) && wInv(&c.writer)
+//@   modifies c.writer.status, c.writer.length, hdrCalls(c.writer.Writer), hdrStatus(c.writer.Writer), body(c.writer.Writer), early(c.writer.Writer)
+//@   modifies hdrs(c)["Content-Type"], headerVal(hdrs(c), "Content-Type")
+//@   panics *
+//@   ensures inv: wInv(&c.writer)
+//@   ensures documented_content_type: ctIs(c, "text/html; charset=utf-8")
+//@   ensures status_with_body: status > 0 && old(c.writer.length) == -1 && len(data) > 0 ==> hdrStatus(c.writer.Writer) == status
+//@   ensures body_is_text: body(c.writer.Writer) == old(body(c.writer.Writer)) + data
+// io.Copy into rux's writer: some prefix of the reader's content is appended; a failure is returned.
+//@ extern io.Copy(dst, src) (written, err)
+//@   requires hastype(dst, *responseWriter) && wInv(rwOf(dst))
+//@   modifies rwOf(dst).status, rwOf(dst).length, hdrCalls(rwOf(dst).Writer), hdrStatus(rwOf(dst).Writer), body(rwOf(dst).Writer), early(rwOf(dst).Writer)
+//@   ensures wInv(rwOf(dst)) && rwOf(dst).length >= old(rwOf(dst).length) && written >= 0
+//@   ensures old(rwOf(dst).length) >= 0 ==> hdrStatus(rwOf(dst).Writer) == old(hdrStatus(rwOf(dst).Writer))
+//@   ensures old(rwOf(dst).length) == -1 && rwOf(dst).length >= 0 ==> hdrStatus(rwOf(dst).Writer) == (old(rwOf(dst).status) == 0 ? 200 : old(rwOf(dst).status))
+//@   ensures rwOf(dst).status == (old(rwOf(dst).length) == -1 && rwOf(dst).length >= 0 && old(rwOf(dst).status) == 0 ? 200 : old(rwOf(dst).status))
+//@   ensures err == nil ==> body(rwOf(dst).Writer) == old(body(rwOf(dst).Writer)) + uf("contentOf", string, refof(src))
+//@ func (*Context).Stream [C19]
+//@   requires respBound(c) && wInv(&c.writer)
+//@   modifies c.writer.status, c.writer.length, hdrCalls(c.writer.Writer), hdrStatus(c.writer.Writer), body(c.writer.Writer), early(c.writer.Writer)
+//@   modifies hdrs(c)["Content-Type"], headerVal(hdrs(c), "Content-Type"), c.Errors, allelems([]error)
+//@   ensures inv: wInv(&c.writer)
+//@   ensures documented_content_type: ctIs(c, contentType)
+//@   ensures status_given: status > 0 && old(c.writer.length) == -1 ==> (c.writer.length >= 0 ? hdrStatus(c.writer.Writer) == status : c.writer.status == status)
+//@   ensures failure_is_recorded: len(c.Errors) == old(len(c.Errors)) || len(c.Errors) == old(len(c.Errors)) + 1
+//@   ensures body_is_stream: len(c.Errors) == old(len(c.Errors)) ==> body(c.writer.Writer) == old(body(c.writer.Writer)) + uf("contentOf", string, refof(r))
 
 // ---------------------------------------------------------------------------
 // Context binding wrappers (C18)
 //@ func (*Context).AutoBind [C18]
 //@   requires c.Req != nil && c.Req.URL != nil
-//@   modifies decodedKind(refof(obj)), decodedFrom(refof(obj)), validatedOK(refof(obj)), c.Req.Form, c.Req.PostForm, c.Req.MultipartForm
+//@   modifies decodedKind(refof(obj)), decodedFrom(refof(obj)), validatedOK(refof(obj)), decodedOK(refof(obj)), c.Req.Form, c.Req.PostForm, c.Req.MultipartForm
 //@   ensures success_means_validated: result == nil && binding.Validator != nil ==> validatedOK(refof(obj))
+//@   ensures malformed_input_is_an_error: result == nil ==> decodedOK(refof(obj))
 //@ func (*Context).Bind [C18]
 //@   requires c.Req != nil && c.Req.URL != nil
-//@   modifies decodedKind(refof(obj)), decodedFrom(refof(obj)), validatedOK(refof(obj)), c.Req.Form, c.Req.PostForm, c.Req.MultipartForm
+//@   modifies decodedKind(refof(obj)), decodedFrom(refof(obj)), validatedOK(refof(obj)), decodedOK(refof(obj)), c.Req.Form, c.Req.PostForm, c.Req.MultipartForm
 //@   ensures success_means_validated: result == nil && binding.Validator != nil ==> validatedOK(refof(obj))
+//@   ensures malformed_input_is_an_error: result == nil ==> decodedOK(refof(obj))
 
 // ---------------------------------------------------------------------------
 // Static file handlers (C17): delegation. Confinement to the root is enforced inside net/http (http.Dir,
